@@ -276,6 +276,10 @@ int scn_main(int argc, char **argv) {
       free(f->data); f->len = f->cap = 0; f->data = NULL;
       if (strcmp(t[2], "-")) { f->len = unhex(t[2], &f->data); f->cap = f->len + 1; } else { f->data = malloc(1); f->cap = 1; }
     }
+    else if (!strcmp(t[0], "sparse") && n >= 5) {      /* sparse NAME SIZE OFFSET HEX : SIZE bytes, zero except HEX at OFFSET */
+      struct mfile *f = sm_file(t[1], 1); if (!f) continue;
+      free(f->data); f->len = unhex(t[4], &f->data); f->cap = f->len + 1; f->vlen = strtoull(t[2], NULL, 10); f->voff = strtoull(t[3], NULL, 10);
+    }
     else if (!strcmp(t[0], "inst") && n >= 2) { int k = atoi(t[1]) & (NI - 1); save_inst(cur_inst); load_inst(k); cur_inst = k; printf("inst %d\n", k); }
     else if (!strcmp(t[0], "fill") && n >= 2) sm_fill = atoi(t[1]) & 255;
     else if (!strcmp(t[0], "trace") && n >= 2) sm_trace = atoi(t[1]);
